@@ -110,6 +110,333 @@ fn popcount_rows(m: &[u64]) -> u32 {
     n
 }
 
+/// cut: the HIP accumulators (kxp, hip_est_accum; f64) of input sketches are not read by the union and the
+/// merged result's estimator is ICON (C01, outside); removing the float updates is what makes these fit
+fn cut_update_hip(_s: &mut CpcSketch, _row_col: u32) {}
+
+// ---------------------------------------------------------------------------------------------
+// Sparse inputs into the accumulator (cases A of CpcUnion::update, reduce_k): lg_k 5 / 6, where one or
+// two coupons keep a sketch Sparse (at the public minimum lg_k 4 the second coupon already graduates).
+// ---------------------------------------------------------------------------------------------
+
+/// Sparse sketch holding one symbolic coupon whose home slot in the 4-slot table is `home` (the top two
+/// row bits are fixed per instance, every other row bit and the column are symbolic): the table layout
+/// is concrete, so walking it makes exactly one row_col_update call. The coupon sits in its home slot,
+/// which is where maybe_insert puts the first item of a table (probing invariant holds).
+fn sparse_source(lg_k: u8, home: u32) -> (CpcSketch, u32) {
+    let mut s = CpcSketch::new(lg_k);
+    let low: u32 = kani::any();
+    let col: u32 = kani::any();
+    kani::assume(low < (1u32 << (lg_k - 2)) && col < 64);
+    let row = (home << (lg_k - 2)) | low;
+    let rc = (row << 6) | col;
+    let mut slots = [u32::MAX; 4];
+    slots[home as usize] = rc;
+    let t = vt::raw_table_nvb(2, 6 + lg_k, &slots);
+    assert!(vt::lookup_of(&t, rc) == home, "verif: harness table layout is not the one maybe_insert produces");
+    s.surprising_value_table = Some(t);
+    s.num_coupons = 1;
+    (s, rc)
+}
+
+fn fold_rc(rc: u32, lg: u8) -> u32 {
+    (((rc >> 6) & ((1u32 << lg) - 1)) << 6) | (rc & 63)
+}
+
+/// the union (in accumulator form) denotes exactly the set {x, y} of folded coupons: for a Sparse sketch the
+/// matrix is by definition the set of table entries (CpcSketch::build_bit_matrix, C05)
+fn check_accumulator(u: &CpcUnion, lg: u8, x: u32, y: u32) {
+    assert!(u.lg_k() == lg, "union lg_k is not the smallest lg_k seen");
+    let c = if x == y { 1 } else { 2 };
+    assert!(u.num_coupons() == c, "union coupon count is not the population count of the folded OR");
+    let r = u.to_sketch();
+    assert!(r.lg_k() == lg && r.num_coupons() == c, "result sketch has the wrong lg_k or coupon count");
+    assert!(r.merge_flag, "result sketch not marked as merged");
+    assert!(r.window_offset == 0 && r.sliding_window.is_empty() && r.first_interesting_column == 0);
+    assert!(r.flavor() == Flavor::Sparse);
+    let t = r.surprising_value_table();
+    let sl = t.slots();
+    assert!(sl.len() <= 8);
+    let (mut seen_x, mut seen_y, mut n) = (false, false, 0u32);
+    let mut i = 0;
+    while i < sl.len() {
+        if sl[i] != u32::MAX {
+            assert!(sl[i] == x || sl[i] == y, "union result holds a coupon that is in neither input (after folding)");
+            if sl[i] == x {
+                seen_x = true;
+            }
+            if sl[i] == y {
+                seen_y = true;
+            }
+            n += 1;
+        }
+        i += 1;
+    }
+    assert!(seen_x && seen_y, "a coupon of an input is missing from the union result");
+    assert!(n == c, "a coupon is stored twice");
+    core::mem::forget(r);
+}
+
+fn sparse_union_case(lg_a: u8, lg_b: u8, lg_u: u8, home_a: u32, home_b: u32, can_collide: bool) {
+    let (a, ca) = sparse_source(lg_a, home_a);
+    let (b, cb) = sparse_source(lg_b, home_b);
+    let mut u = CpcUnion::new(lg_u);
+    u.update(&a);
+    let lg1 = if lg_a < lg_u { lg_a } else { lg_u };
+    check_accumulator(&u, lg1, fold_rc(ca, lg1), fold_rc(ca, lg1));
+    u.update(&b);
+    let lg2 = if lg_b < lg1 { lg_b } else { lg1 };
+    let (x, y) = (fold_rc(ca, lg2), fold_rc(cb, lg2));
+    check_accumulator(&u, lg2, x, y);
+    if can_collide {
+        kani::cover!(x == y); // the two inputs are equal after folding
+    } else {
+        assert!(x != y);
+    }
+    kani::cover!(x != y);
+    core::mem::forget((a, b, u));
+}
+
+macro_rules! cpc_union_sparse {
+    ($name:ident, $lga:expr, $lgb:expr, $lgu:expr, $ha:expr, $hb:expr, $col:expr) => {
+        #[kani::proof]
+        #[kani::unwind(10)]
+        #[kani::stub(CpcSketch::update_hip, cut_update_hip)]
+        fn $name() {
+            sparse_union_case($lga, $lgb, $lgu, $ha, $hb, $col);
+        }
+    };
+}
+
+//@ family: cpc_union_sparse
+//@ props: C06 C17
+//@ tier: thorough
+//@ timeout: 1800
+//@ functions: cpc::union::CpcUnion::update
+//@ functions: cpc::union::CpcUnion::to_sketch
+//@ functions: cpc::union::CpcUnion::reduce_k
+//@ functions: cpc::union::CpcUnion::num_coupons
+//@ functions: cpc::union::walk_table_updating_sketch
+//@ functions: cpc::sketch::CpcSketch::row_col_update
+//@ functions: cpc::pair_table::PairTable::maybe_insert
+//@ unwind: 10
+//@ stubs: CpcSketch::update_hip -> no-op (cut: f64 HIP accumulators are not read by the union; the merged result is estimated by ICON)
+//@ bounds: two Sparse input sketches of one symbolic coupon each (any column, any row within the quarter of the rows given by the instance's home slots - concrete table layouts), lg_k (a, b, union) and home slots per instance: (5,5,5) adopt-then-walk, (6,5,5) larger input first into an empty union, (5,6,5) larger input second, (6,5,6) reduce_k of a non-empty accumulator; the union stays in accumulator (Sparse) form
+//@ desc: after each update the union's lg_k is the smallest seen, its coupon count is the population count of the OR of the inputs' matrices folded to that lg_k, and to_sketch() is a merged Sparse sketch whose table holds exactly the folded coupons of the inputs (colliding coupons once) - for a Sparse sketch the table is the matrix
+cpc_union_sparse!(c06_union_sparse_same_k, 5, 5, 5, 1, 1, true); //@ tier: quick
+cpc_union_sparse!(c06_union_sparse_same_k_far, 5, 5, 5, 3, 0, false);
+cpc_union_sparse!(c06_union_sparse_fold_first, 6, 5, 5, 2, 1, true); //@ tier: quick
+cpc_union_sparse!(c06_union_sparse_fold_second, 5, 6, 5, 0, 3, false);
+cpc_union_sparse!(c06_union_sparse_fold_collide, 5, 6, 5, 1, 2, true);
+cpc_union_sparse!(c06_union_sparse_reduce_k, 6, 5, 6, 3, 3, true); //@ tier: quick
+//@ endfamily: x
+
+// ---------------------------------------------------------------------------------------------
+// Any input into a union that already is a bit matrix (cases B, C, D of CpcUnion::update) at lg_k 4.
+// ---------------------------------------------------------------------------------------------
+
+/// source sketch of lg_k 4 with a concrete window offset, symbolic window bytes and a symbolic 4-slot
+/// surprising-value table; returns it with the matrix it denotes (specification of the windowed encoding)
+fn windowed_source(o: u8, sparse: bool) -> (CpcSketch, [u64; 16]) {
+    let slots: [u32; 4] = kani::any();
+    let mut i = 0;
+    let mut n = 0;
+    while i < 4 {
+        if slots[i] != u32::MAX {
+            kani::assume(slots[i] < (16 << 6));
+            let col = (slots[i] & 63) as u8;
+            kani::assume(col < o || col >= o + 8 || sparse);
+            let mut j = 0;
+            while j < i {
+                kani::assume(slots[j] != slots[i]);
+                j += 1;
+            }
+            n += 1;
+        }
+        i += 1;
+    }
+    kani::assume(n <= 3);
+    let mut s = CpcSketch::new(4);
+    let mut m = [0u64; 16];
+    let early = if o == 0 { 0 } else { (1u64 << o) - 1 };
+    if !sparse {
+        let window: [u8; 16] = kani::any();
+        s.sliding_window = window.to_vec();
+        let mut r = 0;
+        while r < 16 {
+            m[r] = early | ((window[r] as u64) << o);
+            r += 1;
+        }
+    }
+    let mut i = 0;
+    while i < 4 {
+        if slots[i] != u32::MAX {
+            m[(slots[i] >> 6) as usize] ^= 1u64 << (slots[i] & 63);
+        }
+        i += 1;
+    }
+    s.window_offset = o;
+    s.surprising_value_table = Some(vt::raw_table(2, &slots));
+    let c = popcount_rows(&m);
+    s.num_coupons = c;
+    kani::assume(c >= 1);
+    kani::assume(crate::cpc::determine_correct_offset(4, c) == o);
+    if sparse {
+        kani::assume(crate::cpc::determine_flavor(4, c) == Flavor::Sparse);
+    } else {
+        kani::assume(crate::cpc::determine_flavor(4, c) > Flavor::Sparse);
+    }
+    (s, m)
+}
+
+fn matrix_union_case(o: u8, sparse: bool) {
+    let dst: [u64; 16] = kani::any();
+    let (src, m) = windowed_source(o, sparse);
+    let mut u = CpcUnion::new(4);
+    u.state = UnionState::BitMatrix(dst.to_vec());
+    u.update(&src);
+    assert!(u.lg_k() == 4);
+    match &u.state {
+        UnionState::BitMatrix(now) => {
+            assert!(now.len() == 16);
+            let mut r = 0;
+            while r < 16 {
+                assert!(now[r] == dst[r] | m[r], "union matrix is not the OR of the old matrix and the input's matrix");
+                r += 1;
+            }
+        }
+        UnionState::Accumulator(_) => {
+            assert!(false, "a bit-matrix union fell back to an accumulator");
+        }
+    }
+    assert!(u.num_coupons() == popcount_rows(&{
+        let mut x = [0u64; 16];
+        let mut r = 0;
+        while r < 16 {
+            x[r] = dst[r] | m[r];
+            r += 1;
+        }
+        x
+    }));
+    kani::cover!(true);
+    core::mem::forget((src, u));
+}
+
+macro_rules! cpc_union_matrix {
+    ($name:ident, $o:expr, $sparse:expr) => {
+        #[kani::proof]
+        #[kani::unwind(18)]
+        fn $name() {
+            matrix_union_case($o, $sparse);
+        }
+    };
+}
+
+//@ family: cpc_union_matrix
+//@ props: C06 C17
+//@ tier: thorough
+//@ timeout: 1800
+//@ functions: cpc::union::CpcUnion::update
+//@ functions: cpc::union::CpcUnion::num_coupons
+//@ functions: cpc::union::or_table_into_matrix
+//@ functions: cpc::union::or_window_into_matrix
+//@ functions: cpc::union::or_matrix_into_matrix
+//@ functions: cpc::sketch::CpcSketch::build_bit_matrix
+//@ functions: cpc::sketch::CpcSketch::flavor
+//@ unwind: 18
+//@ bounds: union of lg_k 4 in bit-matrix form with all 16 rows symbolic; input sketch of lg_k 4 given by its fields: Sparse (1 coupon), or windowed with a concrete window offset per instance (0: Hybrid / Pinned, 1 and 3: Sliding), symbolic window bytes, <= 3 symbolic surprising values outside the window, coupon count consistent with offset and flavor
+//@ desc: whatever the input's flavor, update() ORs exactly the matrix the input denotes (window bits shifted by the offset, early-zone default ones, surprising values flipped) into the union's matrix and the coupon count follows
+cpc_union_matrix!(c06_union_matrix_sparse_input, 0, true); //@ tier: quick
+cpc_union_matrix!(c06_union_matrix_hybrid_pinned_input, 0, false); //@ tier: quick
+cpc_union_matrix!(c06_union_matrix_sliding_input_1, 1, false); //@ tier: quick
+cpc_union_matrix!(c06_union_matrix_sliding_input_3, 3, false);
+//@ endfamily: x
+
+// ---------------------------------------------------------------------------------------------
+// to_sketch() from a bit matrix
+// ---------------------------------------------------------------------------------------------
+
+fn to_sketch_case(base: [u64; 16], expect_offset: u8) {
+    // two symbolic extra coupons in rows 3 and 9 (columns beyond the base pattern), so that the coupon
+    // count - and with it the window offset - is concrete while the surprising values are symbolic
+    let c1: u32 = kani::any();
+    let c2: u32 = kani::any();
+    kani::assume(c1 < 64 && c2 < 64);
+    kani::assume(base[3] & (1u64 << c1) == 0 && base[9] & (1u64 << c2) == 0);
+    let mut m = base;
+    m[3] |= 1u64 << c1;
+    m[9] |= 1u64 << c2;
+    let c = popcount_rows(&m);
+    let mut u = CpcUnion::new(4);
+    u.state = UnionState::BitMatrix(m.to_vec());
+    let r = u.to_sketch();
+    assert!(r.lg_k() == 4 && r.num_coupons() == c, "to_sketch: wrong coupon count");
+    assert!(r.merge_flag, "to_sketch: result not marked as merged");
+    assert!(r.window_offset == expect_offset && r.window_offset == crate::cpc::determine_correct_offset(4, c));
+    assert!(r.validate(), "to_sketch: result sketch is internally inconsistent");
+    let back = r.build_bit_matrix();
+    let mut i = 0;
+    while i < 16 {
+        assert!(back[i] == m[i], "to_sketch: the result sketch does not denote the union's matrix");
+        i += 1;
+    }
+    let fic = r.first_interesting_column as u32;
+    let low = if fic == 0 { 0 } else { (1u64 << fic) - 1 };
+    let mut i = 0;
+    while i < 16 {
+        assert!(m[i] & low == low, "to_sketch: first_interesting_column skips a column that is not full");
+        i += 1;
+    }
+    kani::cover!(c1 >= expect_offset as u32 + 8 && c2 < 8);
+    core::mem::forget((r, back, u));
+}
+
+//@ props: C06 C17
+//@ tier: quick
+//@ timeout: 1800
+//@ functions: cpc::union::CpcUnion::to_sketch
+//@ functions: cpc::pair_table::PairTable::maybe_insert
+//@ functions: cpc::sketch::CpcSketch::build_bit_matrix
+//@ functions: cpc::sketch::CpcSketch::validate
+//@ bounds: union of lg_k 4 in bit-matrix form: a concrete base pattern of 6 coupons (window offset 0, Hybrid) plus two symbolic coupons (any free column of rows 3 and 9: inside or beyond the window)
+//@ desc: to_sketch() builds a merged sketch with the matrix's coupon count, the offset that count demands, validate() true, whose reconstructed matrix is exactly the union's matrix, and whose first_interesting_column only skips full columns
+#[kani::proof]
+#[kani::unwind(18)]
+fn c06_to_sketch_from_matrix_offset0() {
+    let mut base = [0u64; 16];
+    base[0] = 0b1;
+    base[3] = 0b10;
+    base[5] = 1u64 << 20;
+    base[9] = 0b101;
+    base[15] = 1u64 << 63;
+    to_sketch_case(base, 0);
+}
+
+//@ props: C06 C17
+//@ tier: quick
+//@ timeout: 1800
+//@ functions: cpc::union::CpcUnion::to_sketch
+//@ functions: cpc::pair_table::PairTable::maybe_insert
+//@ functions: cpc::sketch::CpcSketch::build_bit_matrix
+//@ functions: cpc::sketch::CpcSketch::validate
+//@ bounds: union of lg_k 4 in bit-matrix form: a concrete base pattern of 54 coupons (window offset 1, Sliding; column 0 full except one surprising zero in row 7) plus two symbolic coupons (any free column of rows 3 and 9)
+//@ desc: as c06_to_sketch_from_matrix_offset0, with a non-zero window offset: early-zone zeros and late ones both become surprising values
+#[kani::proof]
+#[kani::unwind(18)]
+fn c06_to_sketch_from_matrix_offset1() {
+    let mut base = [0b111u64; 16]; // 48
+    base[7] = 0b110; // surprising zero in the early zone: 47
+    base[1] |= 0b11000; // 49
+    base[2] |= 0b11000; // 51
+    base[4] |= 0b1000; // 52
+    base[11] |= 1u64 << 40; // 53 (a late surprising one); +2 symbolic = 55 -> 8*55-304 = 136 -> offset 1
+    to_sketch_case(base, 1);
+}
+
+// ---------------------------------------------------------------------------------------------
+// Histories through the public sketch API (thorough: 10+ GB / 20+ min each)
+// ---------------------------------------------------------------------------------------------
+
 /// sketch of `n` symbolic distinct coupons at the given lg_k, with its model matrix folded to 16 rows
 fn small_sketch(lg_k: u8, n: usize, model16: &mut [u64; 16]) -> CpcSketch {
     let mut s = CpcSketch::new(lg_k);
@@ -147,10 +474,6 @@ fn check_union_result(u: &CpcUnion, model: &[u64; 16]) {
     assert!(r.window_offset == crate::cpc::determine_correct_offset(4, c));
     core::mem::forget((r, m));
 }
-
-/// cut: the HIP accumulators (kxp, hip_est_accum; f64) of input sketches are not read by the union and the
-/// merged result's estimator is ICON (C01, outside); removing the float updates is what makes these fit
-fn cut_update_hip(_s: &mut CpcSketch, _row_col: u32) {}
 
 fn union_case(lg_a: u8, n_a: usize, lg_b: u8, n_b: usize, lg_u: u8, both_orders: bool) {
     let mut model = [0u64; 16];
@@ -191,7 +514,7 @@ macro_rules! cpc_union_case {
 //@ family: cpc_union_case
 //@ props: C06 C17
 //@ tier: thorough
-//@ timeout: 3600
+//@ timeout: 5400
 //@ functions: cpc::union::CpcUnion::update
 //@ functions: cpc::union::CpcUnion::to_sketch
 //@ functions: cpc::union::CpcUnion::reduce_k
@@ -201,11 +524,11 @@ macro_rules! cpc_union_case {
 //@ functions: cpc::union::or_window_into_matrix
 //@ unwind: 20
 //@ stubs: CpcSketch::update_hip -> no-op (cut: f64 HIP accumulators are not read by the union; the merged result is estimated by ICON)
-//@ bounds: two input sketches built from symbolic distinct (row, col) coupons: (lg_k, count) per instance - Sparse (1 coupon) and Hybrid (2 coupons at lg_k 4) inputs, equal lg_k and lg_k 5 folded into 4, union created at lg_k 4 or 5 (reduce_k path); the *_orders instances also run the opposite input order with one input repeated
+//@ bounds: two input sketches built through row_col_update from symbolic distinct (row, col) coupons: (lg_k, count) per instance - Sparse (1 coupon) and Hybrid (2 coupons at lg_k 4) inputs, equal lg_k and lg_k 5 folded into 4, union created at lg_k 4 or 5; the *_orders instance also runs the opposite input order with one input repeated. These exceed 14 GB on this machine (measured: out of memory after 20 min) and are kept for larger machines
 //@ desc: after every update the union's result sketch represents exactly the OR of the inputs' matrices folded to the smallest lg_k: coupon count = popcount, validate() holds, marked as merged, window offset matches; (orders) independent of input order and repetition
-cpc_union_case!(c06_union_sparse_sparse, 4, 1, 4, 1, 4, false); //@ tier: quick
-cpc_union_case!(c06_union_sparse_sparse_orders, 4, 1, 4, 1, 4, true);
-cpc_union_case!(c06_union_sparse_fold, 4, 1, 5, 1, 4, false);
-cpc_union_case!(c06_union_reduce_k, 5, 1, 4, 1, 5, false);
-cpc_union_case!(c06_union_hybrid_sparse, 4, 2, 4, 1, 4, false);
+cpc_union_case!(c06_union_history_sparse_sparse, 4, 1, 4, 1, 4, false);
+cpc_union_case!(c06_union_history_sparse_sparse_orders, 4, 1, 4, 1, 4, true);
+cpc_union_case!(c06_union_history_fold_first, 5, 1, 4, 1, 4, false);
+cpc_union_case!(c06_union_history_hybrid_sparse, 4, 2, 4, 1, 4, false);
 //@ endfamily: x
+
